@@ -465,8 +465,14 @@ pub proof fn lemma_fp_norm_room(s1: int, e1: int, S: int, e2: int)
         let st = S * t;
         assert(S * (2 * t) == 2 * st) by (nonlinear_arith) requires st == S * t;
         assert(false);
+    } else if e1 == e2 {
+        lemma_fp_ipow01(2);
+        assert(S * 1 == S);
+        assert(s1 == S);
     } else {
+        // S == s1 * 2^(e1 - e2)
         lemma_nd_shift(2, s1, (e1 - e2) as nat);
+        assert(S == s1 * ipow(2, (e1 - e2) as nat));
     }
 }
 /// b <= 2^64  ==>  b^k <= 2^W whenever 64 * k <= W
